@@ -574,3 +574,239 @@ Proof.
       exfalso. rewrite (H5 eq_refl (proj1 (proj2 (Q6 X)))) in E. discriminate. }
 Qed.
 End WP.
+
+(* ================================================================ EndInv *)
+Definition p_isdone pc := match pc with PDone => true | _ => false end.
+Definition c_isdone pc := match pc with CDone => true | _ => false end.
+Definition EndInv (s : st) : Prop := p_isdone (ppc s) = true -> c_isdone (cpc s) = true -> head s = tail s.
+
+Lemma c_isdone_rel pc : c_isdone pc = true -> c_isrel pc = true.
+Proof. destruct pc; cbn; congruence. Qed.
+Lemma p_isdone_rel pc : p_isdone pc = true -> p_isrel pc = true.
+Proof. destruct pc; cbn; congruence. Qed.
+
+Section E.
+Variables cap phys : N.
+Lemma End_step s t c s' e : LifeInv s -> EndInv s -> step cap phys s t c = Some (s', e) -> EndInv s'.
+Proof.
+  intros HL HE Hs. pose proof (L_prel _ HL) as L1. pose proof (L_crel _ HL) as L2.
+  unfold EndInv in *.
+  destruct t; cbn [step] in Hs; [unfold pstep in Hs | unfold cstep in Hs].
+  - destruct (ppc s) eqn:Epc; unf_steps; inv_step Hs; unf_steps; split_goal; st_goal; cbn [p_isdone c_isdone];
+      try discriminate; try (intros _ X; apply c_isdone_rel in X; congruence).
+    all: try (intros _ _; lia).
+    all: try (rewrite Epc; cbn [p_isdone c_isdone]; discriminate).
+  - destruct (cpc s) eqn:Epc; unf_steps; inv_step Hs; unf_steps; split_goal; st_goal; cbn [p_isdone c_isdone];
+      try discriminate; try (intros X _; apply p_isdone_rel in X; congruence).
+    all: try (intros _ _; lia).
+    all: try (rewrite Epc; cbn [p_isdone c_isdone]; discriminate).
+Qed.
+End E.
+
+(* ================================================================ the combined invariant *)
+Record Inv (cap phys : N) (s : st) : Prop := {
+  I_life : LifeInv s;
+  I_lock : LockInv s;
+  I_ring : RingInv cap phys s;
+  I_wca : WCa s;
+  I_wc3 : WC3 s;
+  I_wpa : WPa s;
+  I_wp3 : WP3 cap s;
+  I_end : EndInv s
+}.
+
+Lemma WCa_init pp0 cp0 : WCa (init pp0 cp0).
+Proof. constructor; cbn; intros; try discriminate; try reflexivity; auto. Qed.
+Lemma WC3_init pp0 cp0 : WC3 (init pp0 cp0).
+Proof. constructor; cbn; intros; discriminate. Qed.
+Lemma WPa_init pp0 cp0 : WPa (init pp0 cp0).
+Proof. constructor; cbn; intros; try discriminate; try reflexivity; auto. Qed.
+Lemma WP3_init cap pp0 cp0 : WP3 cap (init pp0 cp0).
+Proof. constructor; cbn; intros; discriminate. Qed.
+
+Section Main.
+Variables cap phys : N.
+Hypothesis Hcap : 0 < cap.
+Hypothesis Hphys : cap <= phys.
+Variable pp0 : list pop.
+Variable cp0 : list cop.
+
+Lemma Inv_init : Inv cap phys (init pp0 cp0).
+Proof.
+  constructor; [apply Life_init | apply Lock_init | apply Ring_init; assumption
+               | apply WCa_init | apply WC3_init | apply WPa_init | apply WP3_init | discriminate].
+Qed.
+
+Lemma Inv_step s t c s' e : Inv cap phys s -> step cap phys s t c = Some (s', e) -> Inv cap phys s'.
+Proof.
+  intros [HL HK HR HA H3 HB H4 HE] Hs. constructor.
+  - eapply Life_step; eassumption.
+  - eapply Lock_step; eassumption.
+  - eapply Ring_step; eassumption.
+  - eapply WCa_step; eassumption.
+  - eapply WC3_step; eassumption.
+  - eapply WPa_step; eassumption.
+  - eapply WP3_step; eassumption.
+  - eapply End_step; eassumption.
+Qed.
+
+Theorem Inv_reachable s : reachable (sys cap phys pp0 cp0) s -> Inv cap phys s.
+Proof.
+  apply (invariant_lift (sys cap phys pp0 cp0) (Inv cap phys)).
+  - exact Inv_init.
+  - intros s0 t c s' e. exact (Inv_step s0 t c s' e).
+Qed.
+
+(* ---------------------------------------------------------------- C03 *)
+Theorem occupancy_bounded s :
+  reachable (sys cap phys pp0 cp0) s -> head s <= tail s /\ tail s - head s <= cap.
+Proof.
+  intros Hr. destruct (I_ring _ _ _ (Inv_reachable s Hr)) as [Ro1 Rlo Ro2 Ro3 Rcap _ _ _ _ _ _ _ _].
+  unfold lo in *. lia.
+Qed.
+
+(* push reports Err only when the ring holds exactly cap items at the refresh read *)
+Theorem push_err_only_when_full s k :
+  reachable (sys cap phys pp0 cp0) s -> ppc s = PPush k LdB ->
+  N.leb cap (tail s - head s) = true -> tail s = head s + cap.
+Proof.
+  intros Hr _ E. destruct (I_ring _ _ _ (Inv_reachable s Hr)) as [Ro1 Rlo Ro2 Ro3 Rcap _ _ _ _ _ _ _ _].
+  unfold lo in *. lia.
+Qed.
+
+(* pop reports None only when the ring is empty at the refresh read (by the test itself) *)
+Theorem pop_none_only_when_empty s k :
+  cpc s = CPop k LdB -> N.eqb (head s) (tail s) = true -> tail s - head s = 0.
+Proof. intros _ E. lia. Qed.
+
+(* ---------------------------------------------------------------- C02 / C01 *)
+Lemma firstn_app_l (l x : list N) n : (n <= length l)%nat -> firstn n (l ++ x) = firstn n l.
+Proof.
+  intros H. rewrite firstn_app. replace (n - length l)%nat with 0%nat by lia. cbn. apply app_nil_r.
+Qed.
+
+(* what the consumer took, what Ring::drop dropped and what the ring still owns, concatenated in
+   this order, is exactly the sequence of payloads the producer wrote, in send order *)
+Theorem fifo_conservation s :
+  reachable (sys cap phys pp0 cp0) s ->
+  received s ++ dropped s ++ buffered s = written s.
+Proof.
+  intros Hr. destruct (I_ring _ _ _ (Inv_reachable s Hr)) as [Ro1 Rlo Ro2 Ro3 Rcap Rhi _ _ Rlen Rfifo _ _ _].
+  unfold buffered. rewrite app_assoc, Rfifo.
+  rewrite <- (firstn_skipn (N.to_nat (lo s)) (written s)) at 2. f_equal.
+  unfold written. symmetry. apply firstn_app_l. lia.
+Qed.
+
+(* ---------------------------------------------------------------- C09 *)
+Theorem slot_ownership s :
+  reachable (sys cap phys pp0 cp0) s ->
+  bad s = false /\
+  (forall j, lo s <= j < hi s -> slots s (j mod phys) = nth_error (written s) (N.to_nat j)) /\
+  (forall k, (forall j, lo s <= j < hi s -> j mod phys <> k) -> slots s k = None).
+Proof.
+  intros Hr. destruct (I_ring _ _ _ (Inv_reachable s Hr)) as [_ _ _ _ _ _ _ _ _ _ _ [O1 O2] Rb].
+  auto.
+Qed.
+
+(* after both handles are gone and Ring::drop has run: every cell is empty and every accepted
+   payload was either received or dropped by the teardown, exactly once, in order *)
+Theorem teardown_drains_residue s :
+  reachable (sys cap phys pp0 cp0) s -> ppc s = PDone -> cpc s = CDone ->
+  (forall k, slots s k = None) /\ received s ++ dropped s = accepted s.
+Proof.
+  intros Hr Ep Ec. pose proof (Inv_reachable s Hr) as HI.
+  destruct (I_ring _ _ _ HI) as [Ro1 Rlo Ro2 Ro3 Rcap Rhi _ _ Rlen Rfifo _ [O1 O2] _].
+  assert (Eht : head s = tail s) by (apply (I_end _ _ _ HI); [rewrite Ep | rewrite Ec]; reflexivity).
+  unfold lo, hi, took, wrote, written in *. rewrite Ep, Ec in *. cbn [c_took p_took p_wrote orb b2n] in *.
+  split.
+  - intros k. apply O2. intros j Hj. lia.
+  - rewrite Rfifo. apply firstn_all2. lia.
+Qed.
+
+(* ---------------------------------------------------------------- C05 *)
+Lemma pstep_none s : pstep cap phys s CGo = None ->
+  ppc s = PDone \/ (ppc s = PPark /\ tok_p s = false).
+Proof.
+  unfold pstep. intros H. destruct (ppc s) eqn:E; auto.
+  all: try (right; split; [reflexivity|]; destruct (tok_p s); [discriminate H | reflexivity]).
+  all: exfalso; unf_steps;
+    repeat (match type of H with
+            | (let '(_, _) := pop_core _ _ _ ?p in _) = None => destruct p; cbn [pop_core] in H
+            | (match ?x with _ => _ end) = None => destruct x eqn:?
+            end); discriminate.
+Qed.
+
+Lemma cstep_none s : cstep phys s CGo = None ->
+  cpc s = CDone \/ (cpc s = CPark /\ tok_c s = false).
+Proof.
+  unfold cstep. intros H. destruct (cpc s) eqn:E; auto.
+  all: try (right; split; [reflexivity|]; destruct (tok_c s); [discriminate H | reflexivity]).
+  all: exfalso; unf_steps;
+    repeat (match type of H with
+            | (let '(_, _) := pop_core _ _ _ ?p in _) = None => destruct p; cbn [pop_core] in H
+            | (match ?x with _ => _ end) = None => destruct x eqn:?
+            end); discriminate.
+Qed.
+
+(* no lost wakeup, safety form: in a reachable state where nobody can move (spurious wake-ups
+   aside), a parked consumer faces an empty ring and a live sender, a parked producer faces a
+   full ring and a live receiver *)
+Theorem no_lost_wakeup s :
+  reachable (sys cap phys pp0 cp0) s -> quiescent_ns cap phys s ->
+  (consumer_parked s -> head s = tail s /\ scount s <> 0) /\
+  (producer_parked s -> tail s = head s + cap /\ cdropped s = false).
+Proof.
+  intros Hr Hq. pose proof (Inv_reachable s Hr) as HI.
+  destruct (Hq TP) as [Hp _]. destruct (Hq TC) as [Hc _]. cbn [step] in Hp, Hc.
+  apply pstep_none in Hp. apply cstep_none in Hc.
+  destruct (I_ring _ _ _ HI) as [Ro1 Rlo Ro2 Ro3 Rcap Rhi _ _ _ _ _ _ _].
+  pose proof (L_sc _ (I_life _ _ _ HI)) as Lsc. pose proof (L_cd _ (I_life _ _ _ HI)) as Lcd.
+  split.
+  - intros [Ec Et].
+    destruct (I_wca _ _ _ HI) as [_ _ _ _ _ _ _ _ _ T]. destruct (I_wc3 _ _ _ HI) as [D D2].
+    rewrite Ec in *. cbn [c_reg c_dz c_ispark c_isswap] in *.
+    specialize (D eq_refl). specialize (D2 eq_refl). specialize (T eq_refl).
+    assert (Hsl : cw_slot s = true).
+    { destruct (cw_slot s); [reflexivity|]. destruct (T eq_refl) as [X | [_ [X | X]]]; try congruence.
+      destruct Hp as [Ep | [Ep _]]; rewrite Ep in X; discriminate X. }
+    rewrite Hsl in *. destruct D as [Dh Dd]. split.
+    + destruct Dd as [X | [X | [X | X]]]; try congruence;
+        destruct Hp as [Ep | [Ep _]]; rewrite Ep in X; discriminate X.
+    + destruct D2 as [X | [X | X]]; try congruence.
+      * rewrite X in Lsc. rewrite Lsc. discriminate.
+      * destruct Hp as [Ep | [Ep _]]; rewrite Ep in X; discriminate X.
+  - intros [Ep Et].
+    destruct (I_wpa _ _ _ HI) as [_ _ _ _ _ _ _ _ _ T]. destruct (I_wp3 _ _ _ HI) as [D D2].
+    rewrite Ep in *. cbn [p_reg p_d2z p_ispark p_isswap] in *.
+    specialize (D eq_refl). specialize (D2 eq_refl). specialize (T eq_refl).
+    assert (Hsl : pw_slot s = true).
+    { destruct (pw_slot s); [reflexivity|]. destruct (T eq_refl) as [X | [_ [X | X]]]; try congruence.
+      destruct Hc as [Ec | [Ec _]]; rewrite Ec in X; discriminate X. }
+    rewrite Hsl in *. destruct D as [Dh Dd]. split.
+    + assert (head s = ch s).
+      { destruct Dd as [X | [X | [X | X]]]; try congruence;
+          destruct Hc as [Ec | [Ec _]]; rewrite Ec in X; discriminate X. }
+      unfold lo in *. lia.
+    + destruct D2 as [X | [X | X]]; try congruence.
+      destruct Hc as [Ec | [Ec _]]; rewrite Ec in X; discriminate X.
+Qed.
+
+(* hence: the protocol cannot deadlock -- the only quiescent reachable states are the final ones *)
+Theorem deadlock_free s :
+  reachable (sys cap phys pp0 cp0) s -> quiescent_ns cap phys s -> ppc s = PDone /\ cpc s = CDone.
+Proof.
+  intros Hr Hq. destruct (no_lost_wakeup s Hr Hq) as [NC NP].
+  pose proof (Inv_reachable s Hr) as HI.
+  pose proof (L_sc _ (I_life _ _ _ HI)) as Lsc. pose proof (L_cd _ (I_life _ _ _ HI)) as Lcd.
+  destruct (Hq TP) as [Hp _]. destruct (Hq TC) as [Hc _]. cbn [step] in Hp, Hc.
+  apply pstep_none in Hp. apply cstep_none in Hc.
+  destruct Hc as [Ec | [Ec Etc]].
+  - destruct Hp as [Ep | [Ep Etp]]; [auto|].
+    destruct (NP (conj Ep Etp)) as [_ X]. rewrite Ec in Lcd. cbn in Lcd. congruence.
+  - destruct (NC (conj Ec Etc)) as [He Hs].
+    destruct Hp as [Ep | [Ep Etp]].
+    + rewrite Ep in Lsc. cbn in Lsc. congruence.
+    + destruct (NP (conj Ep Etp)) as [Hf _]. lia.
+Qed.
+End Main.
+
